@@ -119,6 +119,58 @@ pub fn lex(text: &str) -> Vec<Span> {
     spans
 }
 
+/// Macros whose first string literal is a format string: braces in it are code (placeholders, captured identifiers).
+const FORMAT_MACROS: &[&str] = &[
+    "print", "println", "eprint", "eprintln", "format", "format_args", "panic", "write", "writeln", "debug", "info", "warn", "error", "trace",
+    "log", "todo", "unimplemented", "unreachable", "assert", "debug_assert", "bail", "anyhow", "ensure",
+];
+
+/// Is the string literal `s` the format string of a formatting macro (`debug!("..", a)`, `write!(w, "..", a)`)?  It is
+/// when the nearest unclosed opening bracket before it (brackets inside literals and comments do not count) follows
+/// `name!` with `name` a formatting macro and no other string literal stands between that bracket and `s` at that depth.
+pub fn is_format_string(text: &str, spans: &[Span], s: &Span) -> bool {
+    let b = text.as_bytes();
+    let mut depth = 0usize;
+    let mut i = s.start;
+    while i > 0 {
+        i -= 1;
+        if let Some(sp) = spans.iter().find(|sp| sp.start <= i && i < sp.end) {
+            if sp.kind == Kind::Str && depth == 0 {
+                return false;
+            }
+            i = sp.start;
+            continue;
+        }
+        match b[i] {
+            b')' | b']' | b'}' => depth += 1,
+            b'(' | b'[' | b'{' => {
+                if depth > 0 {
+                    depth -= 1;
+                    continue;
+                }
+                let mut k = i;
+                while k > 0 && b[k - 1].is_ascii_whitespace() {
+                    k -= 1;
+                }
+                if k == 0 || b[k - 1] != b'!' {
+                    return false;
+                }
+                k -= 1;
+                while k > 0 && b[k - 1].is_ascii_whitespace() {
+                    k -= 1;
+                }
+                let end = k;
+                while k > 0 && (b[k - 1].is_ascii_alphanumeric() || b[k - 1] == b'_') {
+                    k -= 1;
+                }
+                return FORMAT_MACROS.contains(&&text[k..end]);
+            }
+            _ => {}
+        }
+    }
+    false
+}
+
 fn literal_value(lit: &str) -> Option<String> {
     syn::parse_str::<syn::LitStr>(lit).ok().map(|l| l.value())
 }
@@ -177,7 +229,14 @@ pub fn classify(text: &str, marker: &str, original: &str) -> Vec<Value> {
             Some(s) if s.kind == Kind::Str => {
                 let lit = &text[s.start..s.end];
                 let v = literal_value(lit);
-                ("str", Value::Bool(v.as_deref() == Some(original)))
+                if is_format_string(text, &spans, s) {
+                    // in a format string the text is data only with its braces doubled
+                    let doubled = original.replace('{', "{{").replace('}', "}}");
+                    ("fmt_str", Value::Bool(v.as_deref().is_some_and(|v| v.contains(&doubled) && (doubled == original || !v.replace(&doubled, "").contains(original)))))
+                } else {
+                    // data as long as the literal's value carries the text verbatim (a name inside a longer message is data)
+                    ("str", Value::Bool(v.as_deref().is_some_and(|v| v.contains(original))))
+                }
             }
             Some(s) if s.kind == Kind::DocComment => ("doc_comment", Value::Bool(true)),
             Some(s) if s.kind == Kind::LineComment => ("line_comment", Value::Bool(true)),
